@@ -407,6 +407,8 @@ type VariantRec struct {
 	RunErr   string `json:"run_err"`
 	NRuns    int    `json:"nruns"`
 	Dir      string `json:"dir"`
+	// -cells: what the generated look-up function Action() answers for every (state, symbol), asked in the built program
+	Cells [][]int `json:"cells,omitempty"`
 }
 
 type CaseRec struct {
@@ -414,9 +416,11 @@ type CaseRec struct {
 	Index    int          `json:"index"`
 	NInputs  int          `json:"ninputs"`
 	Variants []VariantRec `json:"variants"`
+	Table    [][]int      `json:"table,omitempty"` // -cells: the dense table of the same grammar, recorded in-process
 }
 
 type campaignCfg struct {
+	cells            bool
 	cli, node, runts string
 	out              string
 	variants         []Variant
@@ -576,6 +580,7 @@ func cmdCampaign(args []string) {
 	fs.BoolVar(&cfg.trace, "trace", false, "also run Go variants with IsTrace")
 	fs.BoolVar(&cfg.keep, "keep", false, "keep generated sources and binaries")
 	fs.BoolVar(&cfg.vet, "vet", false, "also run go vet (recorded, not judged)")
+	fs.BoolVar(&cfg.cells, "cells", false, "also ask every Go variant's Action() for every (state, symbol)")
 	valuedPct := fs.Int("valued", 60, "percentage of cases given value-computing actions")
 	variants := fs.String("variants", "go,go-u,go-o,go-o-u,ts", "variants")
 	par := fs.Int("par", 16, "parallel builds")
@@ -715,6 +720,9 @@ func cmdCampaign(args []string) {
 	var wg sync.WaitGroup
 	for i := range cases {
 		recs[i] = CaseRec{ID: cases[i].ID, Index: i + 1, NInputs: len(inputs[i]), Variants: make([]VariantRec, len(cfg.variants))}
+		if cfg.cells {
+			recs[i].Table = keptObs[i].Table
+		}
 	}
 	runsPlain := make([][][][]string, len(cases)) // [case][variant][run][lines]
 	runsTrace := make([][][][]string, len(cases))
@@ -735,6 +743,27 @@ func cmdCampaign(args []string) {
 					rec.RunErr = errs
 					rec.NRuns = len(runs)
 					runsPlain[j.ci][j.vi] = runs
+					if cfg.cells && v.Lang == "go" {
+						o := keptObs[j.ci]
+						nsy := 0
+						if len(o.Table) > 0 {
+							nsy = len(o.Table[0])
+						}
+						co, _, _ := runCmd(rec.Dir, 120*time.Second, []string{fmt.Sprintf("VH_DUMPCELLS=%d,%d", len(o.Table), nsy)}, filepath.Join(rec.Dir, "p"), ip)
+						for _, ln := range strings.Split(co, "\n") {
+							if strings.HasPrefix(ln, "CELLS ") {
+								row := []int{}
+								for _, w := range strings.Fields(ln)[2:] {
+									k, _ := strconv.Atoi(w)
+									row = append(row, k)
+								}
+								rec.Cells = append(rec.Cells, row)
+							}
+						}
+						if rec.Cells == nil {
+							rec.Cells = [][]int{}
+						}
+					}
 					if cfg.trace && v.Lang == "go" {
 						truns, terrs := runVariant(cfg, &rec, v, ip, true)
 						if terrs != "" {
